@@ -3,7 +3,8 @@ CONSTANTS
   Trees <- ThoroughTrees
   MaxConns <- MC123
   MayFail = TRUE
-  CancelTail = FALSE
+  CancelTail = TRUE
+  AwaitCancelled = TRUE
   ValidateUpFront = FALSE
 VIEW view
 INVARIANT TypeOK
@@ -17,4 +18,5 @@ INVARIANT FailFast
 INVARIANT RejectedNeverRuns
 INVARIANT OrphansOnlyBehindTail
 INVARIANT NoRunawayAfterSuccess
+INVARIANT QuiescentAfterRaise
 CHECK_DEADLOCK TRUE
